@@ -55,7 +55,13 @@ class Session(BusSession):
         self.connect_slot('N')
         self.method('G', 'RequestName', [R.S(G_NAME), R.U(0)])
         self.method('N', 'RequestName', [R.S(NOFDS), R.U(0)])
-        for l in ('F', 'G', 'P', 'N'):
+        # two observers that did NOT negotiate descriptor passing: a monitor and an eavesdropper.  Whatever reaches them
+        # must not announce descriptors ("only on connections where descriptor passing was negotiated")
+        self.connect_slot('Q', nofd=True)
+        self.method('Q', 'BecomeMonitor', [R.A('s', []), R.U(0)], iface=b'org.freedesktop.DBus.Monitoring')
+        self.connect_slot('E', nofd=True)
+        self.method('E', 'AddMatch', [R.S(b"eavesdrop='true',type='method_call'")])
+        for l in ('F', 'G', 'P', 'N', 'Q', 'E'):
             self.take(l)
         self.baseline = self.bus.fdcount()
         self.closed_by_harness = 0
@@ -169,7 +175,13 @@ class Session(BusSession):
                 self.dirty = True       # cannot tell which descriptors the bus still holds for F
             elif not actually and clean and valid:
                 self.fdq = self.fdq[a:]  # consumed by a message that went nowhere (error reply) -- the bus closed them
-            for l in ('G', 'P', 'F', 'N'):
+            for l in ('P', 'Q', 'E'):
+                for o in self.inbox.get(l, []):
+                    if o.msg.unix_fds:
+                        out.append(Violation('fd-message-delivered', 'not-negotiated-observer' if l != 'P' else 'not-negotiated', '%s: %s, which did not negotiate descriptor passing, received a message announcing %d descriptors: %r' % (desc, l, o.msg.unix_fds, o), None))
+                if l != 'P' and a == 0 and target != 'bus' and (l == 'Q' or candidate is not None):
+                    self.hit('observer-copy-%s' % l, sum(1 for o in self.inbox.get(l, []) if o.body and o.body[0][1] == tok))
+            for l in ('G', 'P', 'F', 'N', 'Q', 'E'):
                 if l != deliver_to and got.get(l):
                     out.append(Violation('fd-delivered-to-wrong-connection', l, '%s: %s received descriptors %r' % (desc, l, got.get(l)), None))
             # sender's fate and surplus bookkeeping
